@@ -41,7 +41,7 @@ CLASS_LISTS = [[], [4], [3, 4], [4, 4], [7], [1], [37], [31], [4, 7, 3], [7, 37]
 SUB_LISTS = [[], [0x40c], [0x40c, 0x40e], [0x401]]      # BSD subclasses only (the scope of the statement)
 
 
-def gen_dump(rnd, big=False, allow_zero_tid=True, residue_case=False, world=None):
+def gen_dump(rnd, big=False, allow_zero_tid=True, residue_case=False, world=None, orphans=0.0, samples=0.0):
     w = world or World(rnd, big_tids=False, allow_zero_tid=allow_zero_tid)
     g = gen.ProgGen(w, rnd, ntids=3, noise=0.02)
     pids = {1: 11, 2: 12, 3: rnd.choice([13, 0])}
@@ -52,6 +52,19 @@ def gen_dump(rnd, big=False, allow_zero_tid=True, residue_case=False, world=None
         t = rnd.randrange(1, 4)
         o = rnd.choice([x for x in (1, 2, 3, 4) if x != t])
         r = rnd.random()
+        if orphans and rnd.random() < orphans:
+            # halves of the two-record announcements on their own: a string record whose data record is not in THIS dump
+            # (it must learn nothing), a data record whose string never comes
+            items.append([rnd.choice([lambda: w.nts(t, rnd.choice(['alpha', 'stray', 'newp'])),
+                                      lambda: w.exs(t, rnd.choice(['beta', 'stray2'])),
+                                      lambda: w.ntd(t, o, rnd.choice([11, 12, 14])),
+                                      lambda: w.exd(t, rnd.choice([11, 13, 14]))])()])
+            continue
+        if samples and rnd.random() < samples:
+            fr = [rnd.randrange(0, 9) for _ in range(4)]
+            items.append(rnd.choice([lambda: [w.img(t, rnd.randrange(0, 8), rnd.randrange(1, 6))],
+                                     lambda: [w.perf(1, t, ti=False, us=True), w.uhdr(t, 4), w.udata(t, fr), w.perf(2, t, us=True)]])())
+            continue
         if r < 0.3:
             name = g.pick(rnd.choice(['SYS1', 'SYS1', 'SYS0', 'SYS2']))
             if not name.startswith('BSC_'):
@@ -96,6 +109,14 @@ def gen_cfg(rnd):
 def run(ctx):
     from pykdebugparser.pykdebugparser import PyKdebugParser
     rnd = random.Random(ctx.seed)
+    # generator-grain sessions on one object (spec/Sessions.tla): listings read alternately, abandoned half way, options
+    # edited in place between requests; every next() validated by Sessions_Val, design model-checked by Sessions_MC
+    from . import sessions
+    sessions.model_check(ctx)
+    for i_ in range(2):
+        sessions.run_sessions(ctx, random.Random(ctx.seed * 2 + 77 + i_), 120 if ctx.quick else 2500, ('kev', 'fkev', 'tr', 'cs'),
+                              lambda r, world=None: gen_dump(r, world=world, orphans=0.2, samples=0.2),
+                              gen_cfg if i_ % 2 else sessions.cfg_light, 'ses%d_' % i_)
     if ctx.quick:
         ctx.expect_ok(run_tlc('Pipeline_MC', MC_CFG % (2, T7, '0, 1', 'FProcAll', 'FClassAll', 'FSubAll', 'ok', INV_ALL),
                               ctx.workdir, name='pipe_d2', timeout=3000))
